@@ -275,6 +275,7 @@ func runC15(c *Ctx) {
 			nOther += o
 		}
 	}
+	c.nilResults(scope)
 	c.Floor("C15.1-optional-dereferences", nDeref, 8)
 	c.Floor("C15.2-index-and-slice-sites", nIdx, 25)
 	c.Floor("C15.3-assertions-panics-ordie", nOther, 8)
@@ -637,4 +638,173 @@ func (c *Ctx) returnsFreshMap(f *types.Func) bool {
 	})
 	_ = token.NoPos
 	return ok && n > 0
+}
+
+// nilResults: a pointer returned together with an error may be nil when the error is not. For every
+// in-repo function that returns a nil literal as its first (pointer) result on some path, (a) its
+// returns are checked to give "result != nil or error != nil", and (b) at its call sites in the
+// panic scope the variable receiving the result is dereferenced — directly, or inside a helper the
+// engine expands, through a parameter bound to it — only where facts exclude nil.
+func (c *Ctx) nilResults(scope []*load.FuncInfo) {
+	type producer struct {
+		fi      *load.FuncInfo
+		summary bool
+	}
+	prods := map[*types.Func]*producer{}
+	for _, fi := range c.P.Funcs() {
+		pp := fi.Pkg.PkgPath
+		if pp != load.CtrlPkg && pp != load.K8sPkg && pp != load.HelperPkg {
+			continue
+		}
+		sig := fi.Obj.Type().(*types.Signature)
+		if sig.Results().Len() < 2 {
+			continue
+		}
+		if _, isPtr := sig.Results().At(0).Type().Underlying().(*types.Pointer); !isPtr {
+			continue
+		}
+		if types.TypeString(sig.Results().At(sig.Results().Len()-1).Type(), nil) != "error" {
+			continue
+		}
+		info := fi.Pkg.TypesInfo
+		hasNil := false
+		var rets []*ast.ReturnStmt
+		ast.Inspect(fi.Decl.Body, func(n ast.Node) bool {
+			switch x := n.(type) {
+			case *ast.FuncLit:
+				return false
+			case *ast.ReturnStmt:
+				if len(x.Results) == sig.Results().Len() {
+					rets = append(rets, x)
+					if isNilExpr(info, x.Results[0]) {
+						hasNil = true
+					}
+				}
+			}
+			return true
+		})
+		if !hasNil {
+			continue
+		}
+		fn, an := c.Analysis(fi)
+		ok := len(rets) > 0
+		for _, r := range rets {
+			st := an.StateBefore(r)
+			if !st.Reachable() {
+				continue
+			}
+			want := gf.Or(gf.FNotNil(fn.Term(r.Results[0])), gf.FNotNil(fn.Term(r.Results[len(r.Results)-1])))
+			if g, _ := st.Implies(want); !g {
+				ok = false
+			}
+		}
+		prods[fi.Obj] = &producer{fi, ok}
+	}
+	n := 0
+	for _, fi := range scope {
+		info := fi.Pkg.TypesInfo
+		fn := c.E.FnOf(fi)
+		type recv struct {
+			v    types.Object
+			as   *ast.AssignStmt
+			prod *producer
+		}
+		var recvs []recv
+		ast.Inspect(fi.Decl.Body, func(x ast.Node) bool {
+			as, ok := x.(*ast.AssignStmt)
+			if !ok || len(as.Rhs) != 1 || len(as.Lhs) < 2 {
+				return true
+			}
+			call, ok := ast.Unparen(as.Rhs[0]).(*ast.CallExpr)
+			if !ok {
+				return true
+			}
+			f := gf.StaticCallee(info, call)
+			if f == nil || prods[f.Origin()] == nil {
+				return true
+			}
+			// only where the producer's returns provably pair a nil result with a non-nil error, and the
+			// caller keeps that error: a producer whose guarantee rests on the API machinery (objects returned
+			// by client calls, elements of listed slices) and a caller that discards the error are not judged here
+			eid, _ := as.Lhs[len(as.Lhs)-1].(*ast.Ident)
+			if id, ok := as.Lhs[0].(*ast.Ident); ok && id.Name != "_" && prods[f.Origin()].summary && eid != nil && eid.Name != "_" {
+				recvs = append(recvs, recv{info.ObjectOf(id), as, prods[f.Origin()]})
+			}
+			return true
+		})
+		if len(recvs) == 0 {
+			continue
+		}
+		// facts after each such call: result != nil or error != nil, where the producer's returns guarantee it
+		saved := fn.PostFacts
+		pf := map[ast.Node]*gf.Formula{}
+		for k, v := range saved {
+			pf[k] = v
+		}
+		for _, r := range recvs {
+			if !r.prod.summary {
+				continue
+			}
+			if eid, ok := r.as.Lhs[len(r.as.Lhs)-1].(*ast.Ident); ok && eid.Name != "_" {
+				pf[r.as] = gf.Or(gf.FNotNil(gf.Var(r.v)), gf.FNotNil(gf.Var(info.ObjectOf(eid))))
+			}
+		}
+		fn.PostFacts = pf
+		an := fn.Analyze(nil)
+		fn.PostFacts = saved
+		seen := map[string]bool{}
+		for _, body := range fn.Bodies() {
+			ownNodes(body, func(nd ast.Node) {
+				e, ok := nd.(ast.Expr)
+				if !ok {
+					return
+				}
+				var base ast.Expr
+				switch x := e.(type) {
+				case *ast.StarExpr:
+					base = x.X
+				case *ast.SelectorExpr:
+					if sel, ok := info.Selections[x]; ok && sel.Indirect() {
+						if _, isPtr := info.TypeOf(x.X).Underlying().(*types.Pointer); isPtr {
+							base = x.X
+						}
+					}
+				}
+				id, isID := ast.Unparen(base).(*ast.Ident)
+				if base == nil || !isID {
+					return
+				}
+				bt := fn.Term(id)
+				st := an.StateAtExpr(e)
+				if !st.Reachable() {
+					return
+				}
+				for _, r := range recvs {
+					hit := bt.Key() == gf.Var(r.v).Key()
+					if !hit {
+						for _, d := range st.D {
+							for _, o := range d.EqualTerms(bt) {
+								if o.Key() == gf.Var(r.v).Key() {
+									hit = true
+								}
+							}
+						}
+					}
+					if !hit {
+						continue
+					}
+					k := fmt.Sprintf("%s|%s|%d", r.v.Name(), types.ExprString(base), c.P.Fset.Position(e.Pos()).Line)
+					if seen[k] {
+						return
+					}
+					seen[k] = true
+					n++
+					name := fmt.Sprintf("%s: dereference of %s (result of %s)", fi.Obj.Name(), types.ExprString(base), r.prod.fi.Obj.Name())
+					c.Implies(st, gf.FNotNil(bt), "C15.1-nil-result-dereference", name, e.Pos())
+					return
+				}
+			})
+		}
+	}
+	c.Floor("C15.1-nil-result-dereferences", n, 2)
 }
